@@ -62,6 +62,14 @@ NOTES={
  "C15d":("C15",["C15"],""),
  "C17d":("C17",["C17"],""),
  "C18d":("C18",["C18","C01"],"missed by the first version of C18 (dot segments were only inserted with a trailing slash, i.e. never directly before '?' or '#'); end-of-path variants 'x/..', '.', '%2e' were added. C01 caught it unchanged"),
+ "C02e":("C02",["C02"],"the first version of C02 HUNG on this seed (a statistics-only re-parse of the same input without its base ran with an effectively unlimited budget); every call into the library now runs under the statement budget, and the seed is reported as c02:hang"),
+ "C04e":("C04",["C04","C05"],""),
+ "C13e":("C13",["C13"],"missed by the first version of C13: needs a parser that records validation errors, the recorded errors as an observable, and writes on BOTH sides (shared backing array of the error slice). C13 now also builds the pairs with a reporting parser, observes ValidationErrors(), and after every history mutates the other side with two probe sequences"),
+ "C14e":("C14",["C14"],"detected by the first version but reported CHECK-BROKEN: the unsynchronised memo makes the first run of a scenario differ from the later ones, which the determinism self-check took for harness non-determinism. The self-check now compares two warm runs; a remaining difference is handed to the oracles, and a scenario is skipped (noted, non-exhaustive) only if they do not object"),
+ "C15e":("C15",["C15"],""),
+ "C16e":("C16",["C16"],"missed by the first version of C16 (no added special scheme with an empty or zero default port); effect configuration SpecialSchemes(+app:'', +foo:0) added"),
+ "C17e":("C17",["C17","C18"],"missed by the first version of C17 (nesting only wrapped the '%'; the seed needs an escape whose own hex digit is escaped, %4%31); four such spellings added to the grammar and to C18's re-spelling variation. C18 caught it unchanged"),
+ "C18e":("C18",["C18"],""),
  "C20a":("C20",["C20"],"missed by the first version of C20 (only single-fragment repetition families); two-phase families P*n + Q*n over per-slot atom menus were added"),
 }
 for d in sorted(glob.glob('/verif/seeded/*/')):
